@@ -283,6 +283,9 @@ def cond_origin_to_centre(c):
             c.fail("origin-not-mapped-to-centre",
                    f"{c.event}: decompactify([.., 0, ..])[1] = {za!r}, wall centre given to "
                    f"the grid = {want!r} (rounding bound {tol:.3e})", got=za, want=want)
+    if c.level == "full":     # recorded, not judged: the map at the points at infinity
+        ze = g.decompactify(np.array([-1.0, 1.0]), np.array([-1.0, 1.0]), np.array([1.0]))
+        c.obs["endpoints"] = [repr(float(v)) for v in (*ze[0], *ze[1], *ze[2])]
     if not (float(pz0) == 0.0 and float(pp0) == 0.0):
         c.fail("momentum-origin-not-zero",
                f"{c.event}: p_z(rho_z=0) = {float(pz0)!r}, p_par(rho_par=-1) = {float(pp0)!r}")
@@ -534,20 +537,21 @@ def cond_jacobian_is_derivative_ftc(c):
     g, pm, mm = c.g, c.pm, c.mm
     chi, z, j, zref, zb, jref, jb = _position_values(c)
     _, rz, rp = c.probes()
-    zero = np.array([0.0])
+    zero = np.float64(0.0)
     pz = np.asarray(g.decompactify(zero, rz, zero)[1], dtype=float)
     pp = np.asarray(g.decompactify(zero, zero, rp)[2], dtype=float)
     brk = [-float(c.sh["ratioPointsWall"]), float(c.sh["ratioPointsWall"])] if c.is3 else []
     dirs = (
         ("xi", chi, z, model.K_MAP * zb, model.K_JAC * jb,
-         lambda x: float(g.compactificationDerivatives(x, 0.0, 0.0)[0]), brk),
+         lambda x: float(g.compactificationDerivatives(np.float64(x), zero, zero)[0]), brk),
         ("pz", rz, pz, np.array([model.K_MAP * mm.pz_bound(x) for x in rz]),
          np.array([model.K_JAC * mm.jac_pz_bound(x) for x in rz]),
-         lambda x: float(g.compactificationDerivatives(0.0, x, 0.0)[1]), []),
+         lambda x: float(g.compactificationDerivatives(zero, np.float64(x), zero)[1][()]), []),
         ("pp", rp, pp, np.array([model.K_MAP * mm.pp_bound(x) for x in rp]),
          np.array([model.K_JAC * mm.jac_pp_bound(x) for x in rp]),
-         lambda x: float(g.compactificationDerivatives(0.0, 0.0, x)[2]), []),
+         lambda x: float(g.compactificationDerivatives(zero, zero, np.float64(x))[2][()]), []),
     )
+    ongrid = np.isin(chi, np.asarray(g.chiValues))
     for name, xs, vals, bnd, jbnd, fun, breaks in dirs:
         worst, worst_k, skipped = 0.0, None, 0
         for k in range(xs.size - 1):
@@ -565,7 +569,8 @@ def cond_jacobian_is_derivative_ftc(c):
             dz = float(vals[k + 1] - vals[k])
             r_ = abs(dz - q) / tol
             c.count("ftc_intervals")
-            if q > 0:
+            if name == "xi" and q > 0 and ongrid[k] and ongrid[k + 1]:
+                # evidence only: mismatch between neighbouring *grid* points
                 c.obs["ftc_rel_mismatch"] = max(c.obs.get("ftc_rel_mismatch", 0.0),
                                                 abs(dz - q) / q)
             if not r_ <= worst:
@@ -673,5 +678,28 @@ def evaluate(g, event, raised=None, level="full", rng=None):
             cond_rejected_call_left_state(c)
             return c
         for cond in (FULL if level == "full" else EXACT):
-            cond(c)
+            try:
+                cond(c)
+            except Exception as exc:   # the code under test raised on an admissible input?
+                import traceback
+                tb = traceback.extract_tb(exc.__traceback__)
+                if tb and "/WallGo/" in tb[-1].filename.replace("\\", "/"):
+                    c.count("grid_method_raised")
+                    c.fail("grid-method-raises",
+                           f"{event}: {tb[-1].name}() raised {exc!r} at "
+                           f"{tb[-1].filename.split('/')[-1]}:{tb[-1].lineno} while "
+                           f"{cond.__name__} evaluated it on points of the open intervals",
+                           condition=cond.__name__)
+                else:
+                    raise
     return c
+
+
+def make_passive_listener(sink, level="exact"):
+    """listener for use under *other* workloads (EOM runs etc.): evaluates the clauses
+    that need no tolerance after every rescale and appends a small record to ``sink``."""
+    def listener(obj, event, raised):
+        c = evaluate(obj, event, raised, level=level)
+        sink.append({"event": event, "viol": c.viol, "mon": c.mon,
+                     "params": dict(c.sh or {})})
+    return listener
